@@ -48,10 +48,9 @@ type truWorld struct {
 	srvSeq   int64
 	hist     []truEntry // mirrors the undo stack (top = last)
 	fut      []truEntry // mirrors the redo stack
-	approx   bool      // an approximate (style) restoration deviated: compare without attributes from here on
-	soft     bool      // trace with supplementary-plane text (listed finding c19-surrogate): deviations are counted
-	lean     bool      // long trace: no structural dumps
-	crafted  bool      // a fabricated entry was pushed: the recorded XMLs no longer describe the stacks
+	approx   bool       // an approximate (style) restoration deviated: compare without attributes from here on
+	lean     bool       // long trace: no structural dumps
+	crafted  bool       // a fabricated entry was pushed: the recorded XMLs no longer describe the stacks
 	dead     bool
 	undoRun  int
 	maxRun   int
@@ -165,21 +164,18 @@ func truRedoLen(d *document.Document) int {
 	return rfield(h.Elem(), "redoStack").Len()
 }
 
-func (w *truWorld) symptom() bool {
+// symptom: the tag of a listed tree finding whose direct symptom is present on the editor or the receiver (trSymptoms of engine
+// `tree`: a text node holding U+FFFD = an edit boundary cut a surrogate pair, c19-surrogate-cut).
+func (w *truWorld) symptom() string {
 	tw := &trWorld{c: w.c, ord: []*trReplica{w.ed}}
 	if w.rc != nil {
 		tw.ord = append(tw.ord, w.rc)
 	}
-	return tw.trSymptoms() != ""
+	return tw.trSymptoms()
 }
 
 func (w *truWorld) oracle(format string, a ...any) {
-	msg := fmt.Sprintf(format, a...)
-	if w.soft && w.symptom() {
-		w.c.Count("soft:deviation-with-c19-surrogate-symptom")
-		return
-	}
-	w.c.Oracle("%s", msg)
+	w.c.Oracle("%s%s", w.symptom(), fmt.Sprintf(format, a...))
 }
 
 func (w *truWorld) observe(rep *trReplica, failed bool) {
@@ -324,12 +320,7 @@ func (w *truWorld) edit(cl trCall) {
 	if err != nil {
 		c.Obs("err")
 		w.edFailed = true
-		// a forward call that fails is not C14's subject (C07/C19); with supplementary text it is the listed finding
-		if !(w.soft && trHasSupplementary(before)) {
-			w.oracle("Update failed (%s): %v", trEncCall(cl), err)
-		} else {
-			c.Count("soft:update-failed-with-supplementary-text")
-		}
+		w.oracle("Update failed (%s): %v", trEncCall(cl), err)
 		return
 	}
 	chs := d.CreateChangePack().Changes
@@ -687,7 +678,6 @@ func (w *truWorld) exec(line string) (err error) {
 		if err != nil || init == nil {
 			return fmt.Errorf("bad line %q", line)
 		}
-		w.soft = trHasSupplementary(f[4]) || strings.Contains(f[4], "%F0")
 		w.seed(f[1], f[2], f[3], init)
 	case "E":
 		if len(f) != 2 || w.ed == nil {
@@ -696,9 +686,6 @@ func (w *truWorld) exec(line string) (err error) {
 		cl, err := trDecCall(f[1])
 		if err != nil {
 			return err
-		}
-		if strings.Contains(f[1], "%F0") {
-			w.soft = true
 		}
 		w.edit(cl)
 	case "UNDO":
@@ -816,7 +803,7 @@ func runTreeUndoRandom(c *Ctx) error {
 			c.Cmd("%s", l)
 			return w.exec(l)
 		}
-		// supplementary-plane characters (listed finding c19-surrogate) in one trace out of twelve
+		// supplementary-plane characters in one trace out of twelve (an edit boundary inside a pair: listed finding c19-surrogate-cut)
 		trPoolN = len(trTextPool) - 2
 		if r.Intn(12) == 0 {
 			trPoolN = len(trTextPool)
